@@ -36,6 +36,45 @@ const (
 type c13Key struct {
 	kind int
 	name string // the key's name as the map sees it (Str of the key value)
+
+	// class is the family the NAME was drawn from, by construction (see
+	// c13GenKey): "identifier", "json-literal", "literal-lookalike",
+	// "number-lookalike", "lexable-punctuation", "unicode-letters",
+	// "qualified", "json-punctuation", "empty" or "string:<piece class>".
+	class string
+	// lex: the name can be written as a symbol in source ('name).  A symbol
+	// key whose name the reader cannot spell is made with the Go constructor
+	// (an embedder's route) and reaches source-built values as a global.
+	lex bool
+	// bare: the symbol true / false written unquoted (it evaluates to itself).
+	bare bool
+	// respell: the key is put into the map twice, under both spellings of
+	// the same name ('k and "k" are one key, docs/lang.md "Sorted Maps").
+	//   1: first under the other spelling with a placeholder, then as written
+	//   2: first as written with a placeholder, then under the other spelling
+	// Which spelling the map then shows is the map's business and is not
+	// judged; the name, and the value of the second write, are.
+	respell int
+}
+
+// label names a key for finding keys and coverage: spelling + name family.
+func (k c13Key) label() string {
+	s := []string{"symbol-key", "string-key", "keyword-key"}[k.kind] + ":" + k.class
+	if k.kind == c13KSym && !k.lex {
+		s += ":unreadable-name"
+	}
+	if k.respell != 0 {
+		s += ":respelled"
+	}
+	return s
+}
+
+// lvals returns the key as written and under the other spelling of its name.
+func (k c13Key) lvals() (as, other *lisp.LVal) {
+	if k.kind == c13KStr {
+		return lisp.String(k.name), lisp.Symbol(k.name)
+	}
+	return lisp.Symbol(k.name), lisp.String(k.name)
 }
 
 type c13Val struct {
@@ -55,6 +94,8 @@ func (v *c13Val) leaf() bool { return v.kind < c13VVec }
 type c13Stats struct {
 	classes  map[string]bool
 	keyKinds map[string]bool
+	keyLabel map[string]bool // spelling + name family of every key that is not a plain identifier / ordinary string
+	nKeys    int
 	hasList  bool
 	hasBad   bool
 	depth    int
@@ -63,7 +104,7 @@ type c13Stats struct {
 }
 
 func c13StatsOf(v *c13Val) *c13Stats {
-	st := &c13Stats{classes: map[string]bool{}, keyKinds: map[string]bool{}}
+	st := &c13Stats{classes: map[string]bool{}, keyKinds: map[string]bool{}, keyLabel: map[string]bool{}}
 	var walk func(v *c13Val, d int)
 	walk = func(v *c13Val, d int) {
 		st.nodes++
@@ -96,6 +137,10 @@ func c13StatsOf(v *c13Val) *c13Stats {
 			}
 			for _, k := range v.keys {
 				st.keyKinds[[]string{"symbol-key", "string-key", "keyword-key"}[k.kind]] = true
+				st.nKeys++
+				if k.class != "identifier" && !(k.kind == c13KStr && strings.HasPrefix(k.class, "string:")) || k.respell != 0 {
+					st.keyLabel[k.label()] = true
+				}
 				if !c13x.ValidUTF8([]byte(k.name)) {
 					st.hasBad = true
 				}
@@ -430,19 +475,116 @@ func c13GenValue(r *fw.RNG, cfg c13GenCfg, depth int) *c13Val {
 	}
 }
 
-func c13GenKey(r *fw.RNG, allowBad bool) c13Key {
-	switch r.Intn(4) {
-	case 0:
-		return c13Key{c13KSym, c13GenSymName(r)}
-	case 1:
-		return c13Key{c13KKw, ":" + c13GenSymName(r)}
-	default:
-		s, _, _ := c13GenStrRaw(r, allowBad)
-		if len(s) > 64 && !allowBad {
-			s = s[:0] + "k" + strconv.Itoa(r.Intn(100))
-		}
-		return c13Key{c13KStr, s}
+// Names that coincide with a token of JSON, of lisp or of another JSON
+// dialect.  A key is a name whatever it looks like: `true` in key position is
+// the member name "true", never the literal.  Every entry of the first four
+// lists can be written as a symbol in source (checked against the reader).
+var (
+	c13JSONLiteralNames      = []string{"true", "false", "null"}
+	c13LiteralLookalikeNames = []string{"nil", "NaN", "Infinity", "-Infinity", "undefined", "t", "T", "True", "TRUE", "False", "FALSE",
+		"Null", "NULL", "None", "nan", "inf"}
+	c13LexablePunctNames = []string{"+", "-", "*", "/", "=", "<", ">", "<=", ">=", "!=", "->", "->>", "a.b", "a/b", "a<b", "a>b", "a&b",
+		"</script>", "&rest", "&optional", "a?", "a!", "$x", "%", "~a", "_", "-a", "a-", "a=b", ".", ".a", "+a", ".5"}
+	c13UnicodeLetterNames = []string{"é", "ß", "中", "𝒳", "naïve", "Ünï", "日本語"}
+	c13QualifiedNames     = []string{"lisp:car", "json:null", "a:true", "json:dump-string"}
+	// not spellable as symbols: as strings, or as symbols made by the constructor
+	c13NumberLookalikeNames = []string{"0", "-0", "1", "-1", "1e5", "1E5", "1.5", "0.0", "007", "+1", "1.", "0x10", "1e400", "-1e-400",
+		"9223372036854775807", "9223372036854775808", "9007199254740993", "1000000000000000000000", "1e21", "12abc"}
+	c13JSONPunctNames = []string{" ", ",", ":", "{", "}", "[", "]", "\"", "\\", "'", "()", "{}", "[]", "\"true\"", "'true", "true ", " true",
+		"true,", "\"\"", "#t", "; c", "(a)", "a b", "\"a\":1", "\n", "\t", "\x00"}
+)
+
+func c13IdentLike(s string) bool {
+	if s == "" {
+		return false
 	}
+	for i := 0; i < len(s); i++ {
+		c := s[i]
+		if !((c >= 'a' && c <= 'z') || (c >= 'A' && c <= 'Z')) {
+			return false
+		}
+	}
+	return true
+}
+
+// c13GenSpecialKey draws a name from the token look-alike families and spells
+// it as a symbol, a string or (identifier-like names) a keyword.
+func c13GenSpecialKey(r *fw.RNG) c13Key {
+	var k c13Key
+	switch f := r.Intn(16); {
+	case f < 5:
+		k = c13Key{name: fw.Pick(r, c13JSONLiteralNames), class: "json-literal", lex: true}
+	case f < 8:
+		k = c13Key{name: fw.Pick(r, c13LiteralLookalikeNames), class: "literal-lookalike", lex: true}
+	case f < 10:
+		k = c13Key{name: fw.Pick(r, c13LexablePunctNames), class: "lexable-punctuation", lex: true}
+	case f < 11:
+		k = c13Key{name: fw.Pick(r, c13UnicodeLetterNames), class: "unicode-letters", lex: true}
+	case f < 12:
+		k = c13Key{name: fw.Pick(r, c13QualifiedNames), class: "qualified", lex: true}
+	case f < 14:
+		k = c13Key{name: fw.Pick(r, c13NumberLookalikeNames), class: "number-lookalike"}
+	case f < 15:
+		k = c13Key{name: fw.Pick(r, c13JSONPunctNames), class: "json-punctuation"}
+	default:
+		k = c13Key{name: "", class: "empty"}
+	}
+	switch sp := r.Intn(8); {
+	case sp < 4:
+		k.kind = c13KSym
+		if (k.name == "true" || k.name == "false") && r.Bool() {
+			k.bare = true
+		}
+	case sp < 5 && c13IdentLike(k.name):
+		k.kind, k.name = c13KKw, ":"+k.name
+	default:
+		k.kind, k.lex = c13KStr, false
+	}
+	return k
+}
+
+func c13GenKey(r *fw.RNG, allowBad bool) c13Key {
+	var k c13Key
+	switch r.Intn(8) {
+	case 0, 1:
+		k = c13Key{kind: c13KSym, name: c13GenSymName(r), class: "identifier", lex: true}
+	case 2:
+		k = c13Key{kind: c13KKw, name: ":" + c13GenSymName(r), class: "identifier", lex: true}
+	case 3:
+		k = c13GenSpecialKey(r)
+	default:
+		s, class, _ := c13GenStrRaw(r, allowBad)
+		if len(s) > 64 && !allowBad {
+			s, class = s[:0]+"k"+strconv.Itoa(r.Intn(100)), "string:ascii"
+		}
+		k = c13Key{kind: c13KStr, name: s, class: class}
+		if r.Chance(1, 8) && c13x.ValidUTF8([]byte(s)) {
+			// the same name held by a symbol the reader could not have produced
+			// (lisp.Symbol is an embedder's constructor)
+			k.kind = c13KSym
+		}
+	}
+	// a name from the generic families may coincide with a token too: the
+	// family is a function of the name
+	bare := strings.TrimPrefix(k.name, ":")
+	if k.kind != c13KKw {
+		bare = k.name
+	}
+	for _, fam := range []struct {
+		names []string
+		class string
+	}{{c13JSONLiteralNames, "json-literal"}, {c13LiteralLookalikeNames, "literal-lookalike"}} {
+		for _, n := range fam.names {
+			if n == bare && k.class != fam.class {
+				k.class = fam.class
+				k.lex = k.kind != c13KStr
+			}
+		}
+	}
+	if r.Chance(1, 8) && c13x.ValidUTF8([]byte(k.name)) {
+		k.respell = 1 + r.Intn(2)
+	}
+	return k
 }
 
 // c13GenCase picks the shape of a value case.
@@ -468,9 +610,9 @@ func c13GenCase(r *fw.RNG) (v *c13Val, shape string) {
 			var key c13Key
 			switch r.Intn(5) {
 			case 0:
-				key = c13Key{c13KStr, string(c13x.AppendRune(nil, fw.Pick(r, []int{0xE000, 0xFFFF, 0x10000, 0x10FFFF, 0xD7FF, 0xFFFD, 0x7f, 0x80, 0x7ff, 0x800})))}
+				key = c13Key{kind: c13KStr, name: string(c13x.AppendRune(nil, fw.Pick(r, []int{0xE000, 0xFFFF, 0x10000, 0x10FFFF, 0xD7FF, 0xFFFD, 0x7f, 0x80, 0x7ff, 0x800}))), class: "string:ordering"}
 			case 1:
-				key = c13Key{c13KStr, fw.Pick(r, []string{"", " ", "a", "A", "a ", "aa", "a\x00", "a\x01", "B", "b", "_", "-", "0", "10", "9", ":a", "\"", "\\", "\x1f", "\x7f"})}
+				key = c13Key{kind: c13KStr, name: fw.Pick(r, []string{"", " ", "a", "A", "a ", "aa", "a\x00", "a\x01", "B", "b", "_", "-", "0", "10", "9", ":a", "\"", "\\", "\x1f", "\x7f"}), class: "string:ordering"}
 			default:
 				key = c13GenKey(r, false)
 			}
@@ -492,7 +634,7 @@ func c13GenCase(r *fw.RNG) (v *c13Val, shape string) {
 			if kind == c13VMap {
 				key := c13GenKey(r, false)
 				if used[key.name] {
-					key.name += strconv.Itoa(i)
+					key = c13Key{kind: key.kind, name: key.name + strconv.Itoa(i), class: "renamed"}
 					if used[key.name] {
 						continue
 					}
@@ -566,15 +708,23 @@ func c13BuildGo(v *c13Val, r *fw.RNG, vectorise bool) *lisp.LVal {
 		if r != nil {
 			fw.Shuffle(r, idx)
 		}
-		for _, i := range idx {
-			var k *lisp.LVal
-			if v.keys[i].kind == c13KStr {
-				k = lisp.String(v.keys[i].name)
-			} else {
-				k = lisp.Symbol(v.keys[i].name)
-			}
-			if rc := m.Map().Set(k, c13BuildGo(v.elems[i], r, vectorise)); rc != nil && rc.Type == lisp.LError {
+		set := func(k, val *lisp.LVal) {
+			if rc := m.Map().Set(k, val); rc != nil && rc.Type == lisp.LError {
 				panic("c13: map set: " + rc.String())
+			}
+		}
+		for _, i := range idx {
+			as, other := v.keys[i].lvals()
+			val := c13BuildGo(v.elems[i], r, vectorise)
+			switch v.keys[i].respell {
+			case 1:
+				set(other, lisp.Int(0))
+				set(as, val)
+			case 2:
+				set(as, lisp.Int(0))
+				set(other, val)
+			default:
+				set(as, val)
 			}
 		}
 		return m
@@ -639,7 +789,6 @@ func c13BuildSrc(c *c13RT, v *c13Val, r *fw.RNG) string {
 			}
 			sb.WriteByte(')')
 		default:
-			sb.WriteString("(sorted-map")
 			idx := make([]int, len(v.elems))
 			for i := range idx {
 				idx[i] = i
@@ -647,25 +796,59 @@ func c13BuildSrc(c *c13RT, v *c13Val, r *fw.RNG) string {
 			if r != nil {
 				fw.Shuffle(r, idx)
 			}
+			// spell writes the key as a symbol (sym) or as a string
+			spell := func(k c13Key, sym bool) {
+				switch {
+				case sym && k.bare:
+					sb.WriteString(k.name)
+				case sym && k.kind == c13KKw:
+					sb.WriteString(k.name)
+				case sym && k.lex:
+					sb.WriteString("'" + k.name)
+				case sym:
+					sb.WriteString(bind(lisp.Symbol(k.name)))
+				case c13SimpleStr(k.name):
+					sb.WriteString(`"` + k.name + `"`)
+				default:
+					sb.WriteString(bind(lisp.String(k.name)))
+				}
+			}
+			// a respelled key is written a second time with assoc! (in place)
+			// or assoc (on a copy of the map) around the constructor call
+			var again []int
+			for _, i := range idx {
+				if v.keys[i].respell != 0 {
+					again = append(again, i)
+				}
+			}
+			for k := len(again) - 1; k >= 0; k-- {
+				if (again[k]+len(v.keys[again[k]].name))%2 == 0 {
+					sb.WriteString("(assoc! ")
+				} else {
+					sb.WriteString("(assoc ")
+				}
+			}
+			sb.WriteString("(sorted-map")
 			for _, i := range idx {
 				sb.WriteByte(' ')
 				k := v.keys[i]
-				switch k.kind {
-				case c13KSym:
-					sb.WriteString("'" + k.name)
-				case c13KKw:
-					sb.WriteString(k.name)
-				default:
-					if c13SimpleStr(k.name) {
-						sb.WriteString(`"` + k.name + `"`)
-					} else {
-						sb.WriteString(bind(lisp.String(k.name)))
-					}
-				}
+				spell(k, (k.kind != c13KStr) != (k.respell == 1))
 				sb.WriteByte(' ')
-				emit(v.elems[i])
+				if k.respell != 0 {
+					sb.WriteString("0")
+				} else {
+					emit(v.elems[i])
+				}
 			}
 			sb.WriteByte(')')
+			for _, i := range again {
+				sb.WriteByte(' ')
+				k := v.keys[i]
+				spell(k, (k.kind != c13KStr) != (k.respell == 2))
+				sb.WriteByte(' ')
+				emit(v.elems[i])
+				sb.WriteByte(')')
+			}
 		}
 	}
 	emit(v)
@@ -1108,13 +1291,23 @@ func c13ModelStr(v *c13Val) string {
 			sb.WriteString("(sorted-map")
 			for i, k := range v.keys {
 				sb.WriteByte(' ')
-				switch k.kind {
-				case c13KSym:
+				switch {
+				case k.kind == c13KSym && k.bare:
+					sb.WriteString(k.name)
+				case k.kind == c13KSym && k.lex:
 					sb.WriteString("'" + k.name)
-				case c13KKw:
+				case k.kind == c13KSym:
+					sb.WriteString("#<symbol named " + c13Q(k.name) + ">")
+				case k.kind == c13KKw:
 					sb.WriteString(k.name)
 				default:
 					sb.WriteString(c13Q(k.name))
+				}
+				switch k.respell {
+				case 1:
+					sb.WriteString("#<set first under the other spelling>")
+				case 2:
+					sb.WriteString("#<set again under the other spelling>")
 				}
 				sb.WriteByte(' ')
 				walk(v.elems[i])
@@ -1168,14 +1361,17 @@ func c13RunValueCase(w *fw.W, c *c13RT, idx int) {
 	}
 	c.set("c13-v2", c13BuildGo(v, r2, false))
 	c.set("c13-v3", c13BuildGo(v, nil, true))
-	ckBase := "value|" + shape + "|" + build + "|" + strings.Join(c13SortedKeys(st.keyKinds), ",")
+	ckBase := "value|" + shape + "|" + build + "|" + strings.Join(c13SortedKeys(st.keyKinds), ",") + "|" + strings.Join(c13Cap(c13SortedKeys(st.keyLabel), 2), ",")
+	for kl := range st.keyLabel {
+		w.SetAdd("c13_key_classes", kl)
+	}
 
 	// ---- 1. dump: success, determinism, forms agree
 	dump := func(expr string) (string, bool) {
 		t, lv := c.eval(expr)
 		w.Eval(1)
 		if t.IsErr {
-			w.Violation("dump-failed:"+c13FirstFailingLeaf(c, v, func(lv string) string { return "(json:dump-string " + lv + ")" }),
+			w.Violation("dump-failed:"+c13Blame(c, v, c13FirstFailingLeaf(c, v, func(lv string) string { return "(json:dump-string " + lv + ")" })),
 				"json:dump of a JSON-representable value failed: "+t.Cond, detail(expr+"\n=> "+t.Value))
 			return "", false
 		}
@@ -1223,18 +1419,20 @@ func c13RunValueCase(w *fw.W, c *c13RT, idx int) {
 			d := c13x.Parse([]byte(lv.Str))
 			return !d.Valid || !d.UTF8
 		})
-		w.Violation("dump-invalid-json:"+cls, "json:dump-string produced a document that is not valid JSON",
+		w.Violation("dump-invalid-json:"+c13Blame(c, v, cls), "json:dump-string produced a document that is not valid JSON",
 			detail(fmt.Sprintf("dump: %s\nrecognizer: valid=%v utf8=%v %s at %d", c13Q(d1), doc.Valid, doc.UTF8, doc.Err, doc.ErrOff)))
 		return
 	}
 	if x := c13CmpDump(v, doc.Root, false, "$"); x != nil {
-		key := "dump-readback-differs:" + c13RefineStringKey(c, v, x, c13LeafClassOf(x))
+		key := "dump-readback-differs:" + c13Blame(c, v, c13RefineStringKey(c, v, x, c13LeafClassOf(x)))
 		switch x.kind {
 		case "unsorted", "duplicate":
 			// a name that does not survive the dump shows up as disorder:
 			// attribute it to the string defect when there is one
 			if cl := c13RefineStringKey(c, v, nil, ""); cl != "" {
 				key = "dump-readback-differs:" + cl
+			} else if k := c13KeyCulprit(c, v); k != "" {
+				key = "dump-readback-differs:" + k
 			} else if x.kind == "unsorted" {
 				key = "dump-keys-unsorted"
 			} else {
@@ -1259,11 +1457,11 @@ func c13RunValueCase(w *fw.W, c *c13RT, idx int) {
 	}
 	docSN := c13x.Parse([]byte(dsn))
 	if !docSN.Valid || !docSN.UTF8 {
-		w.Violation("dump-invalid-json:string-numbers", "dump under :string-numbers is not valid JSON", detail("dump: "+c13Q(dsn)+"\n"+docSN.Err))
+		w.Violation(strings.TrimSuffix("dump-invalid-json:string-numbers:"+c13Blame(c, v, ""), ":"), "dump under :string-numbers is not valid JSON", detail("dump: "+c13Q(dsn)+"\n"+docSN.Err))
 		return
 	}
 	if x := c13CmpDump(v, docSN.Root, true, "$"); x != nil {
-		w.Violation("dump-readback-differs:string-numbers:"+c13RefineStringKey(c, v, x, c13LeafClassOf(x)), "dump under :string-numbers does not read back to the same data: "+x.why, detail("dump: "+c13Q(dsn)))
+		w.Violation("dump-readback-differs:string-numbers:"+c13Blame(c, v, c13RefineStringKey(c, v, x, c13LeafClassOf(x))), "dump under :string-numbers does not read back to the same data: "+x.why, detail("dump: "+c13Q(dsn)))
 		return
 	}
 
@@ -1292,12 +1490,12 @@ func c13RunValueCase(w *fw.W, c *c13RT, idx int) {
 		w.Eval(1)
 		if t.IsErr {
 			cls := c13FirstFailingLeaf(c, v, func(lvn string) string { return "(json:load-string (json:dump-string " + lvn + ")" + kw + ")" })
-			w.Violation("load-rejects-dump:"+mode+":"+cls, "json:load rejected a document json:dump produced ("+t.Cond+")",
+			w.Violation("load-rejects-dump:"+mode+":"+c13Blame(c, v, cls), "json:load rejected a document json:dump produced ("+t.Cond+")",
 				detail(loadExpr+"\n=> "+t.Value+"\ndump: "+c13Q(d1)))
 			continue
 		}
 		if x := c13CmpLoaded(v, lv, ei, "$"); x != nil {
-			key := "load-dump-differs:" + mode + ":" + c13LeafClassOf(x)
+			key := "load-dump-differs:" + mode + ":" + c13Blame(c, v, c13LeafClassOf(x))
 			if x.kind == "inexact" {
 				key = "exact-integers-inexact:" + c13LeafClassOf(x)
 			}
@@ -1323,7 +1521,7 @@ func c13RunValueCase(w *fw.W, c *c13RT, idx int) {
 				cls := c13FirstFailingLeaf(c, v, func(lvn string) string {
 					return "(if (equal? " + lvn + " (json:load-string (json:dump-string " + lvn + ")" + kw + ")) () (error 'c13-not-equal \"x\"))"
 				})
-				w.Violation("load-dump-not-equal?:"+mode+":"+cls, "(equal? v (json:load (json:dump v))) is not true",
+				w.Violation("load-dump-not-equal?:"+mode+":"+c13Blame(c, v, cls), "(equal? v (json:load (json:dump v))) is not true",
 					detail(expr+" => "+te.Value+"\nloaded: "+c13Show(lv)+"\ndump: "+c13Q(d1)))
 			}
 		}
@@ -1385,6 +1583,75 @@ func c13FirstLeafWhere(c *c13RT, v *c13Val, pred func(leaf *c13Val) bool) string
 		return "composite"
 	}
 	return found
+}
+
+// c13KeyCulprit puts every key of the model, alone, into a one-entry map
+// {key: 1} (same spelling, same respelling steps) and returns the label of the
+// first key whose map json:dump / json:load mishandle on its own: the dump
+// fails, is not a JSON text, does not read back as {"name":1}, is rejected by
+// load, or loads to a value that is not equal?.  "" when every key is fine
+// alone.
+func c13KeyCulprit(c *c13RT, v *c13Val) string {
+	found := ""
+	n := 0
+	seen := map[string]bool{}
+	var walk func(v *c13Val)
+	walk = func(v *c13Val) {
+		if found != "" || n > 400 {
+			return
+		}
+		if v.kind == c13VMap {
+			for _, k := range v.keys {
+				id := k.label() + "\x00" + k.name
+				if seen[id] || found != "" || n > 400 {
+					continue
+				}
+				seen[id] = true
+				n++
+				one := &c13Val{kind: c13VMap, keys: []c13Key{k}, elems: []*c13Val{{kind: c13VInt, i: 1, class: "int:below-2^53"}}}
+				if c13SingleBroken(c, one) {
+					found = "map-key:" + k.label()
+				}
+			}
+		}
+		for _, e := range v.elems {
+			walk(e)
+		}
+	}
+	walk(v)
+	return found
+}
+
+func c13SingleBroken(c *c13RT, one *c13Val) bool {
+	c.set("c13-leaf", c13BuildGo(one, nil, false))
+	bad := !c13x.ValidUTF8([]byte(one.keys[0].name))
+	for _, sn := range []bool{false, true} {
+		t, lv := c.eval("(json:dump-string c13-leaf :string-numbers " + c13Bool(sn) + ")")
+		if t.IsErr || lv.Type != lisp.LString {
+			return true
+		}
+		d := c13x.Parse([]byte(lv.Str))
+		if !d.Valid || !d.UTF8 || c13CmpDump(one, d.Root, sn, "$") != nil {
+			return true
+		}
+	}
+	if bad {
+		return false
+	}
+	t, lv := c.eval("(equal? c13-leaf (json:load-string (json:dump-string c13-leaf) :exact-integers true))")
+	return t.IsErr || lv.Type != lisp.LSymbol || lv.Str != "true"
+}
+
+// c13Blame refines a coarse class ("composite", "map") to the key that fails
+// alone, when there is one.
+func c13Blame(c *c13RT, v *c13Val, coarse string) string {
+	switch coarse {
+	case "composite", "map", "vector", "list", "":
+		if k := c13KeyCulprit(c, v); k != "" {
+			return k
+		}
+	}
+	return coarse
 }
 
 var _ = sort.Strings
